@@ -97,6 +97,65 @@ func normSeq(fn *ssa.Function) []string {
 	return out
 }
 
+// nameValidCut: the edges on which `name` (a parameter of f) is known valid — the true edge of
+// isValidBucketName(name), or, where the validation is written out at the call site, the edge of the
+// separator search on which the separator is absent (strings.Contains/ContainsAny false; strings.Index
+// compared negative). Cutting them must make every success unreachable. found: such a test exists.
+func nameValidCut(f *ssa.Function, sep string) (func(from, to *ssa.BasicBlock) bool, bool) {
+	var cuts []func(from, to *ssa.BasicBlock) bool
+	ofName := func(v ssa.Value) bool { return backSlice(v).hasParam(f, "name") }
+	for _, cl := range callsIn(f, pkgLDB+".isValidBucketName") {
+		if ofName(cl.Call.Args[0]) {
+			if t := boolTestsOf(f, cl); len(t) > 0 {
+				cuts = append(cuts, boolEdgeCut(t, true))
+			}
+		}
+	}
+	isSep := func(v ssa.Value) bool {
+		k, isK := strip(v).(*ssa.Const)
+		return isK && k.Value != nil && sep != "" && k.Value.ExactString() == sep
+	}
+	for _, cl := range callsIn(f, "strings.Contains", "strings.ContainsAny") {
+		if ofName(cl.Call.Args[0]) && isSep(cl.Call.Args[1]) {
+			if t := boolTestsOf(f, cl); len(t) > 0 {
+				cuts = append(cuts, boolEdgeCut(t, false))
+			}
+		}
+	}
+	for _, cl := range callsIn(f, "strings.Index") {
+		if !ofName(cl.Call.Args[0]) || !isSep(cl.Call.Args[1]) {
+			continue
+		}
+		if refs := cl.Referrers(); refs != nil {
+			for _, r := range *refs {
+				bo, ok := r.(*ssa.BinOp)
+				if !ok || bo.X != ssa.Value(cl) {
+					continue
+				}
+				k, isK := bo.Y.(*ssa.Const)
+				if !isK || k.Value == nil {
+					continue
+				}
+				kv := k.Value.ExactString()
+				switch {
+				case (bo.Op == token.LSS && kv == "0") || (bo.Op == token.EQL && kv == "-1") || (bo.Op == token.LEQ && kv == "-1"):
+					if t := boolTestsOf(f, bo); len(t) > 0 {
+						cuts = append(cuts, boolEdgeCut(t, true)) // absent on the true edge
+					}
+				case (bo.Op == token.GEQ && kv == "0") || (bo.Op == token.NEQ && kv == "-1") || (bo.Op == token.GTR && kv == "-1"):
+					if t := boolTestsOf(f, bo); len(t) > 0 {
+						cuts = append(cuts, boolEdgeCut(t, false)) // absent on the false edge
+					}
+				}
+			}
+		}
+	}
+	if len(cuts) == 0 {
+		return func(from, to *ssa.BasicBlock) bool { return false }, false
+	}
+	return orCut(cuts...), true
+}
+
 func checkC19(c *Ctx) Meta {
 	c.Rule("C19-KEY", "every key handed to the leveldb transaction/DB/batch derives from the one key constructor innerKey(bucket path + separator + key), from an index key joinBucketPath(\"b\", path), or from an iterator over such a prefix", 20)
 	c.Rule("C19-NAME", "every bucket-index write is dominated by successful isValidBucketName(name), which rejects the separator joinBucketPath joins with", 3)
@@ -150,7 +209,7 @@ func checkC19(c *Ctx) Meta {
 	// ---- KEY + TX
 	for _, fn := range fns {
 		ord := map[string]int{}
-		allInstrs(fn, func(in ssa.Instruction) {
+		allInstrsShallow(fn, func(in ssa.Instruction) {
 			op, ok := isLevelDBStoreCall(in)
 			if !ok {
 				return
@@ -196,7 +255,24 @@ func checkC19(c *Ctx) Meta {
 	}
 
 	// ---- NAME
-	valid := c.MustFn("C19-NAME", "poc/wallet/db/ldb", "isValidBucketName")
+	valid := c.fnExact("poc/wallet/db/ldb", "isValidBucketName")
+	if valid == nil {
+		// the validation may be written out at its call sites: the site rules below then require the
+		// separator search itself (nameValidCut); joinBucketPath must still join with that constant
+		joinOK := false
+		if j := c.Fn("poc/wallet/db/ldb", "joinBucketPath"); j != nil {
+			for _, cl := range callsIn(j, "strings.Join") {
+				if k, isK := cl.Call.Args[1].(*ssa.Const); isK && k.Value != nil && k.Value.ExactString() == sep {
+					joinOK = true
+				}
+			}
+		}
+		if joinOK && sep != "" {
+			c.OK("C19-NAME", "isValidBucketName:rejects-separator", "", "no isValidBucketName function: each site searches the name for "+sep+" itself (site rules), the constant joinBucketPath joins with")
+		} else {
+			c.Bad("C19-NAME", "isValidBucketName:rejects-separator", "", "reason=anchor-missing: isValidBucketName, and joinBucketPath does not join with the separator constant")
+		}
+	}
 	if valid != nil {
 		key := "isValidBucketName:rejects-separator"
 		ok := false
@@ -288,14 +364,9 @@ func checkC19(c *Ctx) Meta {
 			continue
 		}
 		key := recv + ".subBucket:validates-name"
-		var tests []boolTest
-		for _, cl := range callsIn(sb, pkgLDB+".isValidBucketName") {
-			if backSlice(cl.Call.Args[0]).hasParam(sb, "name") {
-				tests = append(tests, boolTestsOf(sb, cl)...)
-			}
-		}
-		r := reach(sb, nil, boolEdgeCut(tests, true), nil)
-		bad := len(tests) == 0
+		vcut, vfound := nameValidCut(sb, sep)
+		r := reach(sb, nil, vcut, nil)
+		bad := !vfound
 		for _, ret := range returnsOf(sb) {
 			if isNilErrorReturn(ret) && r(ret) {
 				bad = true
@@ -328,14 +399,7 @@ func checkC19(c *Ctx) Meta {
 		var cut func(from, to *ssa.BasicBlock) bool
 		found := false
 		if spec.via == "direct" {
-			var tests []boolTest
-			for _, cl := range callsIn(f, pkgLDB+".isValidBucketName") {
-				if backSlice(cl.Call.Args[0]).hasParam(f, "name") {
-					tests = append(tests, boolTestsOf(f, cl)...)
-				}
-			}
-			found = len(tests) > 0
-			cut = boolEdgeCut(tests, true)
+			cut, found = nameValidCut(f, sep)
 		}
 		if !found {
 			// through subBucket(name) success
@@ -389,7 +453,7 @@ func checkC19(c *Ctx) Meta {
 		}
 		var bad []string
 		n := 0
-		allInstrs(fn, func(in ssa.Instruction) {
+		allInstrsShallow(fn, func(in ssa.Instruction) {
 			op, ok := isLevelDBStoreCall(in)
 			if !ok {
 				return
@@ -498,7 +562,7 @@ func checkC19(c *Ctx) Meta {
 		}
 		key := spec + ":prefix-ends-with-separator"
 		var its []*ssa.Call
-		allInstrs(f, func(in ssa.Instruction) {
+		allInstrsNew(f, func(in ssa.Instruction) {
 			if cl, ok := in.(*ssa.Call); ok && callName(cl) == "NewIterator" {
 				its = append(its, cl)
 			}
@@ -579,7 +643,7 @@ func checkC19(c *Ctx) Meta {
 		bad := false
 		n := 0
 		for _, fn := range fns {
-			for _, a := range fieldAccesses(fn) {
+			for _, a := range fieldAccessesShallow(fn) {
 				if a.Kind != "store" || a.Field != "pathLen" {
 					continue
 				}
@@ -648,7 +712,7 @@ func checkC19(c *Ctx) Meta {
 			if pkgOf(fn) != pkgLDB {
 				continue
 			}
-			allInstrs(fn, func(in ssa.Instruction) {
+			allInstrsShallow(fn, func(in ssa.Instruction) {
 				cl, ok := in.(*ssa.Call)
 				if !ok || !cl.Call.IsInvoke() {
 					return
@@ -685,7 +749,7 @@ func checkC19(c *Ctx) Meta {
 				continue
 			}
 			fn := fn
-			allInstrs(fn, func(in ssa.Instruction) {
+			allInstrsShallow(fn, func(in ssa.Instruction) {
 				cl, ok := in.(*ssa.Call)
 				if !ok || !cl.Call.IsInvoke() || !strings.HasSuffix(cl.Call.Value.Type().String(), "iterator.Iterator") {
 					return
@@ -697,7 +761,7 @@ func checkC19(c *Ctx) Meta {
 				taint := map[ssa.Value]bool{cl: true}
 				for changed := true; changed; {
 					changed = false
-					allInstrs(fn, func(i2 ssa.Instruction) {
+					allInstrsShallow(fn, func(i2 ssa.Instruction) {
 						v, isV := i2.(ssa.Value)
 						if !isV || taint[v] {
 							return
@@ -720,7 +784,7 @@ func checkC19(c *Ctx) Meta {
 						}
 					})
 				}
-				allInstrs(fn, func(i2 ssa.Instruction) {
+				allInstrsShallow(fn, func(i2 ssa.Instruction) {
 					kept := ""
 					switch x := i2.(type) {
 					case *ssa.Store:
@@ -773,7 +837,7 @@ func checkC19(c *Ctx) Meta {
 			if pkgOf(fn) != pkgLDB {
 				continue
 			}
-			allInstrs(fn, func(in ssa.Instruction) {
+			allInstrsShallow(fn, func(in ssa.Instruction) {
 				id := calleeID(in)
 				if !strings.Contains(id, "leveldb.Batch).") {
 					return
